@@ -1,6 +1,6 @@
 (* The observable alphabet of a gateway execution (what clients and services can see), in the
    abstract notation produced by the harness from the real frames, and the client-side data types. *)
-From Coq Require Import List Arith ZArith Bool.
+From Coq Require Import List Arith ZArith Bool Ascii.
 Import ListNotations.
 
 Definition rid := nat.          (* interned resource id (as the client wrote it) *)
@@ -37,18 +37,24 @@ Inductive rkind := KSub | KUnsub | KGet | KCall | KAuth | KNew | KVersion | KOth
 
 (* events as the service emitted them on a resource *)
 Inductive sevent :=
-| SChange (ch : ckv) | SAdd (idx : Z) (v : cvalue) | SRemove (idx : Z) | SCustom (tag : nat) | SDelete | SReaccess.
+| SChange (ch : ckv) | SAdd (idx : Z) (v : cvalue) | SRemove (idx : Z) | SCustom (tag : nat) | SDelete | SReaccess
+| SSkipped      (* a state event that reached the gateway while a reset re-fetch of the resource was outstanding: superseded *)
+| SResetEnd     (* the reset re-fetch was answered: any number of derived change/add/remove events may be delivered here *)
+| SMark         (* a system reset matching the resource reached the gateway; its task has not been processed yet *)
+| SNop.         (* a processed mark *)
 
 Inductive mtyp := MGet | MAccess | MCall | MAuth | MOtherReq.
 
 Inductive mout :=
 | OGet (d : rdata)                 (* get result (RErr never used here) *)
-| OAccess (get : bool) (call : nat)
+| OAccess (get : bool) (call : list ascii)
 | OErr (code : nat)
 | OResult
 | OResource (r : rid).
 
 Record snapsub := { ss_c : conn; ss_r : rid; ss_state : nat; ss_direct : nat; ss_indirect : nat; ss_isent : nat }.
+
+Record snapent := { se_r : rid; se_count : Z; se_mqsub : bool; se_evict : bool; se_nsubs : nat; se_nres : nat }.
 
 Inductive tev :=
 | TConn (c : conn)
@@ -66,8 +72,17 @@ Inductive tev :=
 | TEvDelete (c : conn) (r : rid)
 | TEvUnsub (c : conn) (r : rid) (code : nat)
 | TMqSub (r : rid) | TMqUnsub (r : rid)
-| TMqReq (n : nat) (t : mtyp) (r : rid) (c : option conn) (tok : nat)
-| TMqResp (n : nat) (o : mout)
+| TMqReq (n : nat) (t : mtyp) (r : rid) (c : option conn) (tok : nat) (meth : list ascii)   (* tok 0 = no token *)
+| TMqResp (n : nat) (r : rid) (o : mout)   (* r: the resource of request n *)
 | TMqEv (r : rid) (e : sevent)
-| TQ (truth : list (rid * option rdata)) (subs : list snapsub)
+| TQ (truth : list (rid * option rdata)) (subs : list snapsub) (ents : list snapent) (final : bool)
+| TConnSub (c : conn) | TConnUnsub (c : conn)      (* the gateway's subscription to conn.<cid>.* events *)
+| TEvict (r : rid)                                   (* the eviction timer of a cache entry fired *)
+| TConnToken (c : conn) (tok : nat)                  (* a token event for the connection reached the gateway *)
+| TSysReset (res acc : list rid)                     (* system.reset reached the gateway; the known resources matching its patterns *)
+| TResetTask (r : rid) | TResetStart (r : rid) | TResetNoop (r : rid) | TResetDone (r : rid)   (* reset handling of a cached resource (site marks) *)
+| TSched (w : option conn)                           (* a worker was granted a task; Some c for connection c's worker *)
+| TRawOut (c : conn) (leak : bool)                   (* a frame was written to c; leak: it contains some connection id *)
+| THttpReq (h : conn) (get : bool) (r : rid) (meth : list ascii)
+| THttpResp (h : conn) (status : nat) (has_body : bool)
 | TOther.
